@@ -315,20 +315,96 @@ Proof.
   intros (rank & Hr & Hb). apply (expand_rank site tops rank Hr). specialize (Hb t). lia.
 Qed.
 
-(* function declarations on which the mapper's syntactic inspections are safe *)
-Definition named (ps : list param) : bool :=
-  forallb (fun p => match pa_names p with [] => false | _ => true end) ps.
+(* ------------------------- a decidable sufficient condition for embedding_wf *)
 
-Definition safe_fdecl (f : fdecl) : bool :=
-  match fn_body f with Some _ => true | None => false end &&
-  named (fn_params f) &&
-  match fn_recv f with Some r => named r | None => true end &&
-  match fn_results f with Some [] => false | _ => true end &&
-  (negb (String.prefix "Set" (fn_name f)) ||
-   match fn_recv f, fn_params f with Some _, [] => false | _, _ => true end).
+Lemma find_pos n : forall l s, find_tspec n l = Some s -> exists p, pos n l = Some p /\ nth_error l p = Some s.
+Proof.
+  induction l as [|x r IH]; cbn; intros s H; [discriminate|].
+  destruct (ts_name x =? n).
+  - injection H as <-. exists 0. auto.
+  - destruct (IH s H) as (p & Hp & Hn). exists (S p). rewrite Hp. auto.
+Qed.
 
-Definition safe_funcs (files : list file) : bool :=
-  forallb (fun x => safe_fdecl (snd x)) (funcs_of files).
+Lemma pos_find n : forall l p, pos n l = Some p -> exists s, find_tspec n l = Some s /\ nth_error l p = Some s.
+Proof.
+  induction l as [|x r IH]; cbn; intros p H; [discriminate|].
+  destruct (ts_name x =? n).
+  - injection H as <-. exists x. auto.
+  - destruct (pos n r) as [q|]; [|discriminate]. injection H as <-.
+    destruct (IH q eq_refl) as (s & Hs & Hn). exists s. auto.
+Qed.
+
+Lemma pos_lt n : forall l p, pos n l = Some p -> p < List.length l.
+Proof.
+  induction l as [|x r IH]; cbn; intros p H; [discriminate|].
+  destruct (ts_name x =? n); [injection H as <-; lia|].
+  destruct (pos n r) as [q|]; [|discriminate]. injection H as <-. specialize (IH q eq_refl). lia.
+Qed.
+
+Lemma specs_ok_nth tops : forall l p k s,
+  specs_ok tops p l = true -> nth_error l k = Some s -> spec_ok tops (p + k) s = true.
+Proof.
+  induction l as [|x r IH]; intros p k s H Hn; [destruct k; discriminate|].
+  cbn in H. apply andb_prop in H as [H1 H2]. destruct k; cbn in Hn.
+  - injection Hn as <-. now rewrite Nat.add_0_r.
+  - replace (p + S k) with (S p + k) by lia. now apply (IH (S p)).
+Qed.
+
+(* under_struct n = Some fs: fs is the body of a spec declared at or before n *)
+Lemma under_struct_pos tops : ordered tops = true ->
+  forall fuel n fs p, under_struct fuel tops n = Some fs -> pos n tops = Some p ->
+  exists q s, q <= p /\ nth_error tops q = Some s /\ ts_body s = BStruct fs.
+Proof.
+  intros Ho. induction fuel as [|k IH]; intros n fs p Hu Hp; [discriminate|].
+  cbn [under_struct] in Hu. destruct (find_tspec n tops) as [s|] eqn:Hf; [|discriminate].
+  destruct (find_pos n tops s Hf) as (p' & Hp' & Hn). rewrite Hp in Hp'. injection Hp' as <-.
+  pose proof (specs_ok_nth tops tops 0 p s Ho Hn) as Hs. cbn in Hs.
+  destruct (ts_body s) as [fs0| |t] eqn:Hb; try discriminate.
+  - injection Hu as <-. exists p, s. auto.
+  - destruct t; try discriminate.
+    unfold spec_ok in Hs. rewrite Hb in Hs. unfold ref_ok in Hs.
+    destruct (pos n0 tops) as [q'|] eqn:Hq.
+    + apply Nat.ltb_lt in Hs. destruct (IH n0 fs q' Hu Hq) as (q & s' & Hle & Hn' & Hb').
+      exists q, s'. repeat split; auto. lia.
+    + exfalso. destruct k; [discriminate|]. cbn [under_struct] in Hu.
+      destruct (find_tspec n0 tops) as [s0|] eqn:Hf0; [|discriminate].
+      destruct (find_pos _ _ _ Hf0) as (x & Hx & _). congruence.
+Qed.
+
+Lemma embedded_struct_name tops t fs : embedded_struct tops t = Some fs ->
+  exists n p, tname t = Some n /\ pos n tops = Some p /\ under_struct (S (List.length tops)) tops n = Some fs.
+Proof.
+  destruct t; try discriminate; cbn [embedded_struct].
+  - destruct (find_tspec n tops) as [s|] eqn:Hf; [|discriminate].
+    destruct (ts_alias s); [discriminate|]. intros Hu.
+    destruct (find_pos _ _ _ Hf) as (p & Hp & _). exists n, p. auto.
+  - destruct t; try discriminate. intros Hu. cbn [under_struct] in Hu.
+    destruct (find_tspec n tops) as [s|] eqn:Hf; [|discriminate].
+    destruct (find_pos _ _ _ Hf) as (p & Hp & _). exists n, p. repeat split; auto.
+    cbn [under_struct]. now rewrite Hf.
+Qed.
+
+Definition pos_rank (tops : list tspec) (t : texpr) : nat :=
+  match tname t with
+  | Some n => match pos n tops with Some p => p | None => 0 end
+  | None => 0
+  end.
+
+Lemma ordered_wf tops : ordered tops = true -> embedding_wf tops.
+Proof.
+  intros Ho. exists (pos_rank tops). split.
+  - intros t t' (fs & f & He & Hin & Hemb & -> & Hne).
+    destruct (embedded_struct_name _ _ _ He) as (n & p & Htn & Hp & Hu).
+    destruct (under_struct_pos tops Ho _ _ _ _ Hu Hp) as (q & s & Hle & Hn & Hb).
+    pose proof (specs_ok_nth tops tops 0 q s Ho Hn) as Hs. cbn in Hs.
+    unfold spec_ok in Hs. rewrite Hb in Hs. rewrite forallb_forall in Hs. specialize (Hs f Hin). rewrite Hemb in Hs.
+    destruct (embedded_struct tops (fd_type f)) as [fs'|] eqn:He'; [|congruence].
+    destruct (embedded_struct_name _ _ _ He') as (m & q' & Htm & Hq' & _).
+    rewrite Htm in Hs. unfold ref_ok in Hs. rewrite Hq' in Hs. apply Nat.ltb_lt in Hs.
+    unfold pos_rank. rewrite Htn, Hp, Htm, Hq'. lia.
+  - intros t. unfold pos_rank. destruct (tname t) as [n|]; [|lia].
+    destruct (pos n tops) as [p|] eqn:Hp; [|lia]. apply pos_lt in Hp. lia.
+Qed.
 
 Lemma safe_in files g f : safe_funcs files = true -> In (g, f) (funcs_of files) -> safe_fdecl f = true.
 Proof. unfold safe_funcs. rewrite forallb_forall. intros H Hin. exact (H (g, f) Hin). Qed.
@@ -397,9 +473,6 @@ Proof.
     destruct r; [exact I|]. destruct (pa_names recv); [congruence|apply Hrest].
 Qed.
 
-(* every Go file of the package has a package clause *)
-Definition has_pkg_clauses (files : list file) : bool := forallb (fun f => negb (f_pkg f =? "")) files.
-
 Lemma confirm_types_nc fl ld : has_pkg_clauses (ld_files ld) = true -> inv no_crash (confirm_types fl ld).
 Proof.
   intros Hc. unfold confirm_types. destruct (fl_specified fl).
@@ -426,9 +499,6 @@ Qed.
 (* ------------------------------------------------ the writing phases *)
 
 Definition all_ok (io : nat -> bool) : Prop := forall k, io k = true.
-
-Definition is_file (e : entry) : bool := match e with EFile _ => true | _ => false end.
-Definition files_only (d : list (string * entry)) : bool := forallb (fun x => is_file (snd x)) d.
 
 Lemma files_only_set n l d : files_only d = true -> files_only (dir_set n (EFile l) d) = true.
 Proof.
@@ -871,3 +941,18 @@ Lemma ex_runs :
   fst (run id_order no_fault (ex_input ["new"; "-type=Top,Nope"])) = Exit DNewNotExists /\
   fst (run id_order no_fault (ex_input ["new"; "-type=Top"; "-tagcase=weird"])) = Exit DFlagError.
 Proof. vm_compute. auto. Qed.
+
+(* the decidable guard implies the guard of the classification theorem *)
+Lemma input_ok_wf i : input_ok i = true -> input_wf i.
+Proof.
+  unfold input_ok. intros H. repeat (apply andb_prop in H; let H' := fresh "H" in destruct H as [H H']).
+  split; [now apply ordered_wf|]. split; [assumption|]. split; [assumption|].
+  intros sp n fs Hin. rewrite forallb_forall in H0. specialize (H0 (sp, DestPkg n fs) Hin). cbn in H0.
+  apply andb_prop in H0 as [Ho Hs]. split; [now apply ordered_wf|assumption].
+Qed.
+
+Lemma run_is_exit_ok sigma io i : input_ok i = true -> is_exit (fst (run sigma io i)).
+Proof. intros H. apply run_is_exit. now apply input_ok_wf. Qed.
+
+Lemma ex_input_ok args : input_ok (ex_input args) = true.
+Proof. reflexivity. Qed.
